@@ -39,6 +39,15 @@ look-ahead `item[:k]` of a delimiter search over self._source can be
 R12 (sync) per-method contract size >= 0 ==> len(result) <= size, proved for
 every method with a `size` parameter from the contracts of its callees
 (frozen table of assumed, loop-carried contracts: _CAP_ASSUMED).
+R13 0 <= _buffer_pos <= _buffer_len on every acyclic path of every method that
+stores one of the three fields, for BOTH readers; in the asynchronous reader
+(loop invariants of R8's model, parameterless helpers executed in place) a
+PUBLIC method that replaces / shrinks the buffer on a path that leaves the
+cursor alone, where the bound could only follow from the entry state and does
+not, is a violation (exhaust() emptying the buffer: tell() past the end).
+R15 (sync) the constructor, evaluated with the length parameter bound to 0, 1
+and 5, stores exactly that value as the initial budget: a default for "no
+length" chosen by truthiness (`max_stream_len or BIG`) is a violation.
 """
 
 from __future__ import annotations
@@ -1379,7 +1388,8 @@ class _StreamModel:
                     'buffered bytes are skipped (or returned twice) by the next read')
 
     # ------------------------------------------------------------------ driver
-    def execute(self):
+    def infer_invariants(self):
+        """Houdini over _CANDIDATES: {loop head: names of the candidates that hold at every arrival}; nothing is reported."""
         cfg = self.cfg
         segs = list(segments(cfg))
         inv = self.invariants = {h: set(_CANDIDATES) for h in loop_heads(cfg)}
@@ -1397,6 +1407,12 @@ class _StreamModel:
                         if not (isinstance(a, Lin) and isinstance(b, Lin) and e.prove_eq(a, b)):
                             inv[end].discard(c)
                             changed = True
+        return inv
+
+    def execute(self):
+        cfg = self.cfg
+        segs = list(segments(cfg))
+        inv = self.infer_invariants()
         self.quiet = False
         self.run.extra.setdefault('c14_loop_invariants', {})[self.f.qual] = sorted('%s @%s' % (c, short(cfg.node(h).stmt, 40)) for h, cs in inv.items() for c in cs)
         for start, steps, end in segs:
@@ -2024,10 +2040,20 @@ def r12_size_cap(run):
 # must be clamped to / guarded by the new length (finding F20).
 # ---------------------------------------------------------------------------
 
-def _r13_method(run, v, rd, f, skipped):
+_R13_STALE_RW = ('asgi BufferedReader over b"0123456789abcdef": read(1); read(2); exhaust() -> tell() is 18 on a 16-byte stream and eof stays '
+                 'False for good (_buffer_len == 0 < _buffer_pos)')
+
+
+def _r13_method(run, v, rd, f, skipped, invariants=None, decide_stale=False):
+    """invariants: {loop head: candidate names} proved by _StreamModel.infer_invariants() (assumed at a segment that starts at that head).
+    decide_stale: a PUBLIC method that stores the buffer / its cached length on a path that leaves the cursor untouched, where
+    `_buffer_pos <= _buffer_len` would have to follow from the state the method was entered with (no parameter, no data of the source
+    and no result of another method in the difference) and does not, is a violation: no caller can supply the relation - every state
+    that satisfies the class invariant is an entry state of a public operation."""
     p = run.project
     cfg = cfg_of(f, p)
     run.use_cfg(cfg)
+    invariants = invariants or {}
     what = '0 <= %s <= %s is preserved (the cursor never leaves the buffered data)' % (BPOS.split('.')[1], BLEN.split('.')[1])
     src_methods = {n for n, g in rd.methods.items() if n != '__init__' and any(
         isinstance(x, ast.Attribute) and dotted(x) == SOURCE_FN and isinstance(x.ctx, ast.Load) for x in walk_self(g.node))}
@@ -2050,6 +2076,14 @@ def _r13_method(run, v, rd, f, skipped):
             # the bound rests on the length of data read from the source on this path, which only the source decides: no relation between
             # parameters / earlier state that the callers establish can supply it
             hinges = sorted(atom_text(a) for a, k in d.t.items() if a in fresh_lens and k > 0)
+            entry = env.ghost.get('entry')
+            if decide_stale and entry is not None and lo is pos and not f.name.startswith('_') and pos == entry[0] and ln != entry[1] \
+                    and set(d.atoms()) <= entry[2]:
+                v.note(f, 'cursor in buffer', what, False, last,
+                       '%s: %s is not provable %s (difference %r): the buffer / its cached length is replaced on this path while %s keeps the value '
+                       'that belonged to the old buffer, and the entry state of a public method is only bound by the class invariant'
+                       % (f.name, text, at, d, BPOS), wit, _R13_STALE_RW)
+                continue
             if hinges and not env.ghost.get('content_tested'):
                 v.note(f, 'cursor in buffer', what, False, last,
                        '%s: %s is not provable %s (difference %r): the buffer holds freshly read data and nothing on this path relates the cursor to how '
@@ -2063,6 +2097,17 @@ def _r13_method(run, v, rd, f, skipped):
         fn = call.func
         if isinstance(fn, ast.Attribute) and dotted(fn.value) == 'self' and fn.attr in rd.methods:
             callee = rd.methods[fn.attr]
+            if decide_stale and _inlinable(callee, call) and {BUF, BLEN, BPOS} & _stores(callee):
+                # a parameterless straight-line helper (_trim_buffer) is executed in place: what it stores is stored on this path
+                for s in callee.node.body:
+                    if isinstance(s, ast.Expr) and isinstance(s.value, ast.Constant):
+                        continue
+                    env.exec(s)
+                    if isinstance(s, (ast.Assign, ast.AugAssign, ast.AnnAssign)):
+                        tg = s.targets if isinstance(s, ast.Assign) else [s.target]
+                        if any(dotted(t) in (BPOS, BLEN) for t in tg):
+                            env.ghost['last'] = call
+                return NONE
             for a in list(call.args) + [k.value for k in call.keywords]:
                 env.eval(a.value if isinstance(a, ast.Starred) else a)
             w = rd.writes(fn.attr) or set()
@@ -2122,6 +2167,13 @@ def _r13_method(run, v, rd, f, skipped):
             continue            # (a path that neither stores the fields nor calls a reader method leaves the invariant as it found it)
         env = _start_env(rd, f, on_call, assume_inv=not (f.name == '__init__' and start == cfg.entry))
         env.declare(CHUNK, 'nat')
+        for c in sorted(invariants.get(start, ())):
+            a, b = _CANDIDATES[c](env)
+            env.add_eq(a, b)
+        if not (f.name == '__init__' and start == cfg.entry):
+            p0, l0 = env.eval(_E_BPOS), env.eval(_E_BLEN)
+            if isinstance(p0, Lin) and isinstance(l0, Lin):
+                env.ghost['entry'] = (p0, l0, frozenset(p0.atoms()) | frozenset(l0.atoms()))
         wit = flow.describe_path(cfg, [s[0] for s in steps])
         for e in _run_steps(env, cfg, steps, on_node):
             if any(k == 'raise' for k, _v, _n in e.log):
@@ -2145,6 +2197,20 @@ def r13_cursor_in_buffer(run):
             n += 1
     if n < 4:
         raise AnchorError('%s: fewer than 4 methods store the cursor / the buffer' % SYNC)
+    # the asynchronous reader (added after seeded change s8-c14-3: exhaust() emptied the buffer and left the cursor alone): the same
+    # invariant on every acyclic path of every method that stores one of the three fields, with the loop invariants of R8's model
+    # ("cursor at 0" / "buffer drained" where they are inductive) and parameterless straight-line helpers executed in place
+    ard = Reader(run.project, ASYNC)
+    na = 0
+    for name, f in sorted(ard.methods.items()):
+        inl = {c.func.attr for c in walk_self(f.node) if isinstance(c, ast.Call) and isinstance(c.func, ast.Attribute) and dotted(c.func.value) == 'self'
+               and c.func.attr in ard.methods and _inlinable(ard.methods[c.func.attr], c) and {BUF, BLEN, BPOS} & _stores(ard.methods[c.func.attr])}
+        if {BUF, BLEN, BPOS} & _stores(f) or inl:
+            inv = _StreamModel(run, Verdicts(run), ard, f, 'R8').infer_invariants() if name != '__init__' else {}
+            _r13_method(run, v, ard, f, skipped, invariants=inv, decide_stale=True)
+            na += 1
+    if na < 4:
+        raise AnchorError('%s: fewer than 4 methods store the cursor / the buffer' % ASYNC)
     import re as _re
     run.extra['c14_r13_not_decided'] = sorted({_re.sub(r'#\d+', '', x) for x in skipped})
     v.flush()
@@ -2249,6 +2315,271 @@ def r14_subreader_chunk_size(run):
     run.extra['c14_subreader_sites'] = n_sites
 
 
+# ---------------------------------------------------------------------------
+# R15 the budget a reader starts with is the declared maximum length - for
+# EVERY declared length, 0 included (added after seeded change s8-c14-2:
+# `max_stream_len or sys.maxsize` lumped a declared length of 0 together with
+# an absent one)
+# ---------------------------------------------------------------------------
+# "Reads never exceed the declared maximum length" (R2 keeps every source read
+# within `_max_bytes_remaining`) starts from the constructor: the budget stored
+# there must BE the declared length.  0 is a legitimate declared length
+# (Content-Length: 0 on a keep-alive connection: the bytes that follow belong
+# to the next request), and it is falsy: a default for "no length given" that
+# is chosen by truthiness (`x or BIG`, `x if x else BIG`, `if not x:`) turns it
+# into "unbounded".  Decided by evaluating the constructor (a small concrete
+# evaluator; anything it does not read is opaque) with the length parameter -
+# the one constructor parameter the stored budget is computed from, by def-use -
+# bound to 0, 1 and 5: on every path the budget stored must equal the argument.
+# What happens for None (no declared length: not part of today's signature) is
+# listed in the evidence and not judged.
+
+_R15_RW = ('BufferedReader(BytesIO(b"smuggled\\n").read, 0): read(4) -> b"smug" where the cursor over data[:0] gives b"" '
+           '(bytes behind a Content-Length: 0 request are handed to the application)')
+_R15_DOMAIN = (0, 1, 5)
+_R15_OPAQUE = type('_Opaque', (), {'__repr__': lambda self: '<opaque>'})()
+_R15_PURE = ('min', 'max', 'int', 'abs', 'bool', 'float', 'len')
+
+
+class _Init:
+    """Concrete evaluation of a constructor body: parameters bound to given values (others opaque), `self.<attr>` stores recorded.
+    An undecidable test forks; a statement kind it does not know makes the names / attributes it stores opaque."""
+
+    def __init__(self, p, f):
+        self.p, self.f = p, f
+
+    def ev(self, e, env):
+        import operator
+        O = _R15_OPAQUE
+        if isinstance(e, ast.Constant):
+            return e.value
+        if isinstance(e, ast.Name):
+            if e.id in env:
+                return env[e.id]
+            v = self.p.fold(self.f.module, e, None, self.f)
+            return v if isinstance(v, (int, float, str, bytes, bool, type(None))) else O
+        if isinstance(e, ast.Attribute):
+            d = dotted(e)
+            if d is not None and d in env:
+                return env[d]
+            q = self.p.resolve_expr(self.f.module, e, self.f)
+            if q == 'sys.maxsize':
+                import sys
+                return sys.maxsize
+            if q in ('math.inf',):
+                return float('inf')
+            v = self.p.fold(self.f.module, e, None, self.f)
+            return v if isinstance(v, (int, float, str, bytes, bool, type(None))) else O
+        if isinstance(e, ast.BoolOp):
+            v = None
+            for x in e.values:
+                v = self.ev(x, env)
+                if v is O:
+                    return O
+                if bool(v) != isinstance(e.op, ast.And):
+                    return v
+            return v
+        if isinstance(e, ast.UnaryOp):
+            v = self.ev(e.operand, env)
+            if v is O:
+                return O
+            try:
+                return {ast.Not: operator.not_, ast.USub: operator.neg, ast.UAdd: operator.pos, ast.Invert: operator.invert}[type(e.op)](v)
+            except Exception:  # noqa: BLE001
+                return O
+        if isinstance(e, ast.IfExp):
+            t = self.ev(e.test, env)
+            if t is O:
+                a, b = self.ev(e.body, env), self.ev(e.orelse, env)
+                return a if (a is not O and b is not O and type(a) is type(b) and a == b) else O
+            return self.ev(e.body if t else e.orelse, env)
+        if isinstance(e, ast.Compare):
+            left = self.ev(e.left, env)
+            for op, ce in zip(e.ops, e.comparators):
+                right = self.ev(ce, env)
+                if left is O or right is O:
+                    return O
+                try:
+                    if isinstance(op, (ast.Is, ast.IsNot)):
+                        if not (left is None or right is None or isinstance(left, bool) or isinstance(right, bool)):
+                            return O
+                        t = (left is right) == isinstance(op, ast.Is)
+                    else:
+                        fn = {ast.Eq: operator.eq, ast.NotEq: operator.ne, ast.Lt: operator.lt, ast.LtE: operator.le, ast.Gt: operator.gt,
+                              ast.GtE: operator.ge}.get(type(op))
+                        if fn is None:
+                            return O
+                        t = fn(left, right)
+                except Exception:  # noqa: BLE001
+                    return O
+                if not t:
+                    return False
+                left = right
+            return True
+        if isinstance(e, ast.BinOp):
+            l, r = self.ev(e.left, env), self.ev(e.right, env)
+            fn = {ast.Add: operator.add, ast.Sub: operator.sub, ast.Mult: operator.mul, ast.FloorDiv: operator.floordiv,
+                  ast.Mod: operator.mod, ast.Pow: operator.pow, ast.LShift: operator.lshift}.get(type(e.op))
+            if l is O or r is O or fn is None or not all(isinstance(x, (int, float)) and not isinstance(x, bool) for x in (l, r)):
+                return O
+            if isinstance(e.op, (ast.Pow, ast.LShift)) and not (isinstance(r, int) and 0 <= r <= 128):
+                return O
+            try:
+                return fn(l, r)
+            except Exception:  # noqa: BLE001
+                return O
+        if isinstance(e, ast.Call) and isinstance(e.func, ast.Name) and e.func.id in _R15_PURE and e.func.id not in env and not e.keywords \
+                and self.p.resolve_expr(self.f.module, e.func, self.f) == 'builtins.' + e.func.id:
+            args = [self.ev(a, env) for a in e.args if not isinstance(a, ast.Starred)]
+            if len(args) != len(e.args) or any(a is O for a in args):
+                return O
+            import builtins
+            try:
+                return getattr(builtins, e.func.id)(*args)
+            except Exception:  # noqa: BLE001
+                return O
+        if isinstance(e, ast.NamedExpr) and isinstance(e.target, ast.Name):
+            v = self.ev(e.value, env)
+            env[e.target.id] = v
+            return v
+        return O
+
+    def bind(self, t, v, env):
+        d = dotted(t) if isinstance(t, (ast.Name, ast.Attribute)) else None
+        if d is not None:
+            env[d] = v
+        else:
+            self.havoc(t, env)
+
+    @staticmethod
+    def havoc(node, env):
+        for x in ast.walk(node):
+            if isinstance(x, (ast.Name, ast.Attribute)) and isinstance(getattr(x, 'ctx', None), (ast.Store, ast.Del)) and dotted(x) is not None:
+                env[dotted(x)] = _R15_OPAQUE
+
+    def block(self, stmts, envs):
+        """-> environments that reach the end of the block; finished ones (return / raise) are appended to self.done"""
+        for s in stmts:
+            nxt = []
+            for env in envs:
+                nxt += self.stmt(s, env)
+            envs = nxt
+            if len(envs) > 64:
+                raise UnknownIdiom('%s: too many paths' % self.f.qual)
+        return envs
+
+    def stmt(self, s, env):
+        if isinstance(s, ast.Assign):
+            v = self.ev(s.value, env)
+            for t in s.targets:
+                self.bind(t, v, env)
+            return [env]
+        if isinstance(s, ast.AnnAssign):
+            if s.value is not None:
+                self.bind(s.target, self.ev(s.value, env), env)
+            return [env]
+        if isinstance(s, ast.AugAssign):
+            d = dotted(s.target)
+            cur = env.get(d, _R15_OPAQUE) if d else _R15_OPAQUE
+            tmp = dict(env)
+            tmp['$cur'] = cur
+            v = self.ev(ast.BinOp(left=ast.Name(id='$cur', ctx=ast.Load()), op=s.op, right=s.value), tmp)
+            self.bind(s.target, v, env)
+            return [env]
+        if isinstance(s, ast.If):
+            t = self.ev(s.test, env)
+            out = []
+            for truth in ((True, False) if t is _R15_OPAQUE else (bool(t),)):
+                out += self.block(s.body if truth else s.orelse, [dict(env)])
+            return out
+        if isinstance(s, ast.Return):
+            self.done.append(('return', env))
+            return []
+        if isinstance(s, ast.Raise):
+            self.done.append(('raise', env))
+            return []
+        if isinstance(s, (ast.Expr, ast.Pass, ast.Assert, ast.Import, ast.ImportFrom)):
+            if isinstance(s, ast.Expr):
+                for x in ast.walk(s.value):
+                    if isinstance(x, ast.NamedExpr):
+                        self.havoc(x, env)
+            return [env]
+        # loops, try, with, ...: whatever they store is no longer known
+        self.havoc(s, env)
+        return [env]
+
+    def run(self, bound):
+        a = self.f.node.args
+        env = {x.arg: _R15_OPAQUE for x in a.posonlyargs + a.args + a.kwonlyargs}
+        env.update(bound)
+        self.done = []
+        ends = self.block(self.f.node.body, [env])
+        return [e for k, e in self.done if k == 'return'] + ends, [e for k, e in self.done if k == 'raise']
+
+
+def _budget_param(rd):
+    """the constructor parameter the stored budget is computed from (def-use through once-bound locals)"""
+    init = rd.methods.get('__init__')
+    if init is None:
+        raise AnchorError('%s.__init__ not found' % rd.qual)
+    ps = [a for a in init.params() if a != 'self']
+    stores = [n for n in walk_self(init.node) if isinstance(n, (ast.Assign, ast.AnnAssign, ast.AugAssign)) and getattr(n, 'value', None) is not None
+              and any(dotted(t) == BUDGET for t in (n.targets if isinstance(n, ast.Assign) else [n.target]))]
+    if not stores:
+        raise AnchorError('%s.__init__ does not store %s' % (rd.qual, BUDGET))
+    names, todo, seen = set(), [s.value for s in stores], set()
+    # the tests that decide which store runs belong to the computation too
+    for st in ast.walk(init.node):
+        if isinstance(st, ast.If) and any(s2 is x for s2 in stores for x in ast.walk(st)):
+            todo.append(st.test)
+    while todo:
+        e = todo.pop()
+        for x in ast.walk(e):
+            if isinstance(x, ast.Name) and isinstance(x.ctx, ast.Load) and x.id not in seen:
+                seen.add(x.id)
+                if x.id in ps:
+                    names.add(x.id)
+                for n in walk_self(init.node):
+                    if isinstance(n, (ast.Assign, ast.AnnAssign)) and n.value is not None and \
+                            any(dotted(t) == x.id for t in (n.targets if isinstance(n, ast.Assign) else [n.target])):
+                        todo.append(n.value)
+    if len(names) != 1:
+        raise UnknownIdiom('%s.__init__: %s is computed from %s' % (rd.qual, BUDGET, sorted(names) or 'no parameter'))
+    return init, names.pop(), stores
+
+
+def r15_declared_length_is_the_budget(run):
+    """Sync reader: for every declared length n >= 0 - 0 included - the constructor stores n as the initial budget; a default for
+    "no length" chosen by truthiness (`max_stream_len or BIG`) is a violation.  W: BufferedReader(read, 0).read(4) returns 4 bytes."""
+    p = run.project
+    rd = Reader(p, SYNC)
+    require_attrs(p, SYNC, [BUDGET])
+    init, param, stores = _budget_param(rd)
+    run.use(init)
+    model = _Init(p, init)
+    cons = stores[-1]
+    for n in _R15_DOMAIN:
+        ends, raised = model.run({param: n})
+        if not ends:
+            raise UnknownIdiom('%s: no path of the constructor completes for %s=%r' % (init.qual, param, n))
+        vals = []
+        for env in ends:
+            v = env.get(BUDGET, _R15_OPAQUE)
+            if v is _R15_OPAQUE or isinstance(v, bool) or not isinstance(v, (int, float)):
+                raise UnknownIdiom('%s: the budget stored for %s=%r is not read (%r)' % (init.qual, param, n, v))
+            vals.append(v)
+        bad = sorted({v for v in vals if v != n})
+        run.check(not bad, 'a reader declared with %s=%d starts with a budget of exactly %d byte(s)%s' % (
+            param, n, n, ' (0 is a declared length, not "no length")' if n == 0 else ''), init, cons, where=init.loc(cons),
+            witness=['%s=%r -> %s = %s' % (param, n, BUDGET, ' / '.join(repr(b) for b in bad))] if bad else None, runtime_witness=_R15_RW)
+    # not judged: no declared length
+    try:
+        ends, _raised = model.run({param: None})
+        run.extra['c14_r15_no_length'] = sorted({repr(env.get(BUDGET, _R15_OPAQUE)) for env in ends})
+    except UnknownIdiom:
+        run.extra['c14_r15_no_length'] = ['not read']
+
+
 def check(run):
     run.assume('C14: only falcon/util/reader.py and falcon/asgi/reader.py are decided; falcon/cyutil/reader.pyx (the compiled twin) is not analysed')
     run.extra['twin_drift_note'] = 'falcon/cyutil/reader.pyx is a hand-maintained Cython twin of falcon/util/reader.py; not parsed, not compared'
@@ -2264,5 +2595,8 @@ def check(run):
     run.rule('R10', r10_sync_delimiter_not_split, 'sync reader: "enough is buffered" after a failed search keeps len(delimiter) - 1 bytes back', floor=1)
     run.rule('R11', r11_min_chunk, 'async reader: every chunk of the normalising source iterator but the last covers the one-chunk look-ahead of the delimiter search', floor=3)
     run.rule('R12', r12_size_cap, 'sync reader: a read with a non-negative size returns at most `size` bytes (per-method contracts)', floor=10)
-    run.rule('R13', r13_cursor_in_buffer, 'sync reader: 0 <= _buffer_pos <= _buffer_len on every acyclic path (a cursor stored after a refill is clamped to what was delivered)', floor=4)
+    run.rule('R13', r13_cursor_in_buffer, 'both readers: 0 <= _buffer_pos <= _buffer_len on every acyclic path (sync: a cursor stored after a refill is clamped to what was delivered; '
+             'async: a public method that replaces the buffer does not leave the cursor behind)', floor=10)
     run.rule('R14', r14_subreader_chunk_size, 'both readers: a delimited sub-reader is constructed with the parent reader\'s chunk size', floor=2)
+    run.rule('R15', r15_declared_length_is_the_budget, 'sync reader: the constructor stores the declared maximum length as the initial budget for every '
+             'declared length, 0 included (evaluated on {0, 1, 5}); a truthiness default is a violation', floor=3)
